@@ -29,3 +29,12 @@ def gen(rng, tier):
     cases = [cocases.gen_case(rng) for _ in range(n)]
     cases += [cocases.leak_case(rng) for _ in range(n // 20)]
     return cases
+
+PINNED = ['C07_holds', 'C07_shape', 'C07_change_is_edge', 'C07_terminal_absorbing']
+LEVEL_TEXT = 'Unbounded theorem (all bodies, all driver histories, any number of listeners): every listener sees a chain of documented edges starting at Ready, each change exactly once with its matching specific callback, terminal states absorb, refused calls change nothing; plus stand-alone theorems (every reported change is a graph edge; resume on a terminal state is the identity). Proved by a simulation invariant between the model thread and the per-listener specification tracker. Tied to /repo by random bodies and resume sequences on real Coroutine<u64,u64,u64> objects with two recording listeners (one panicking in every callback).'
+LEVEL_NOTE = ("Trusted: Coq kernel + vm_compute; hand transcription of state.rs / korosensei.rs (raw_resume) / suspender.rs / "
+              "mod.rs (resume_with) / listener.rs (broadcast) / catch! (model Co.v) validated on sampled histories only; "
+              "corosensei's context switch is modelled as 'a yield returns control to resume_with with the yielded value'; "
+              "single thread; premise for C07/C08: bodies do not contain the internal IUnreachable marker (never generated). "
+              "No axioms (closed under the global context).")
+TECHNIQUE = "Coq proof (simulation invariant between a Gallina model and a specification tracker) + differential correspondence inside Coq"
